@@ -113,8 +113,11 @@ def sw : Rel :=
 /-- happens-before -/
 def hb : Rel := (g.sb ∪ g.sw).tc
 
-/-- from-reads: `r` reads from a write `mo`-before `w` -/
-def fr : Rel := (g.rf.inv.seq g.mo)
+/-- from-reads: `r` reads from a write `mo`-before `w` (`(rf⁻¹; mo) \ id`: an RMW is not
+from-read-before itself) -/
+def fr : Rel :=
+  let r := g.rf.inv.seq g.mo
+  Rel.ofFn g.n fun a b => a != b && r.get a b
 
 /-- extended coherence order -/
 def eco : Rel := (g.rf ∪ g.mo ∪ g.fr).tc
